@@ -12,7 +12,7 @@ PAIR = ("struct", "Pair", (("a", U256), ("b", U256)))
 
 # storage indices
 CTR, SV, ARR, DYN, MATV, FLAG, PV = range(7)
-STO = [("ctr", U256), ("sv", U256), ("arr", ARR4), ("dyn", DARR), ("mat", MAT), ("flag", BOOL), ("pv", PAIR)]
+STO = [("ctr", U256), ("sv", U256), ("arr", ARR4), ("dyn", DARR), ("mat", MAT), ("flg", BOOL), ("pv", PAIR)]
 
 
 def c(v, t=U256):
@@ -75,7 +75,8 @@ class Builder:
         # wr(): overwrites arr[1] and dyn (an effect on containers), returns 1
         self.add_int("wr", [], U256,
                      [S("assign", base=bsto(ARR), path=[("i", c(1))], e=c(55), decl=None),
-                      S("append", base=bsto(DYN), path=[], cap=6, e=c(66)), log_tag(700), S("return", e=c(1))])
+                      S("assign", base=bsto(DYN), path=[], e=E("list", DARR, elems=[c(66), c(67)]), decl=None),
+                      log_tag(700), S("return", e=c(1))])
         self.n_ext = 0
 
     def add_int(self, name, params, ret, body):
@@ -197,8 +198,8 @@ class Builder:
 
     def pos_aug_scalar(self):
         # target value is read before the right-hand side's effect on the same variable
-        op = self.r.choice(["Add", "Mul", "Sub"])
-        pre = 1000 if op == "Sub" else 1
+        op = self.r.choice(["Add", "Mul", "BXor"])
+        pre = self.r.choice([1, 2, 7])
         self.add_test("aug_scalar_" + op, U256, [
             S("assign", base=bsto(SV), path=[], e=c(pre), decl=None),
             S("aug", op=op, ty=U256, base=bsto(SV), path=[], e=self.call("bump")),
@@ -245,22 +246,25 @@ class Builder:
     def pos_loop_iterable(self):
         self.add_test("loop_iterable", U256, [
             S("assign", base=("loc", "acc", 0), path=[], e=c(0), decl=U256),
-            S("forin", name="it", id=1, vty=U256, e=self.call("mk"),
-              body=[S("aug", op="Add", ty=U256, base=("loc", "acc", 0), path=[], e=E("bin", U256, op="Add", a=E("var", U256, name="it", id=1), b=self.g()))]),
+            S("forin", name="it", id=1, vty=U256, e=E("list", ARR3, elems=[c(3), E("var", U256, name="acc", id=0), c(5)]),
+              body=[S("aug", op="Add", ty=U256, base=("loc", "acc", 0), path=[], e=E("bin", U256, op="Add", a=E("var", U256, name="it", id=1), b=self.g(2)))]),
             S("return", e=E("var", U256, name="acc", id=0))])
 
     def pos_loop_iterable_dyn(self):
         self.add_test("loop_iterable_dyn", U256, [
             S("assign", base=("loc", "acc", 0), path=[], e=c(0), decl=U256),
-            S("forin", name="it", id=1, vty=U256, e=self.call("mkd"),
+            S("assign", base=bsto(DYN), path=[], e=self.call("mkd"), decl=None),
+            S("forin", name="it", id=1, vty=U256, e=sto(DYN),
               body=[S("aug", op="Add", ty=U256, base=("loc", "acc", 0), path=[], e=E("var", U256, name="it", id=1)), log_tag(900)]),
             S("return", e=E("var", U256, name="acc", id=0))])
 
     def pos_loop_range_bound(self):
         self.add_test("loop_range_bound", U256, [
             S("assign", base=("loc", "acc", 0), path=[], e=c(0), decl=U256),
-            S("fordyn", name="it", id=1, vty=U256, e=E("bin", U256, op="Add", a=self.g(), b=c(1)), bound=4,
-              body=[S("aug", op="Add", ty=U256, base=("loc", "acc", 0), path=[], e=self.g())]),
+            S("assign", base=bsto(SV), path=[], e=c(2), decl=None),
+            # the bound expression reads sv once; the body changes sv (bump) without changing the trip count
+            S("fordyn", name="it", id=1, vty=U256, e=sto(SV), bound=4,
+              body=[S("aug", op="Add", ty=U256, base=("loc", "acc", 0), path=[], e=E("bin", U256, op="Add", a=self.call("bump"), b=self.g()))]),
             S("return", e=E("var", U256, name="acc", id=0))])
 
     def pos_log_args(self):
@@ -349,18 +353,17 @@ class Builder:
                  "by_value_scalar", "copy_then_effect", "arg_copy_vs_effect"]
 
 
-def build_programs(rng, rounds=1, per_prog=10):
-    """-> [(Program, unordered flags dict, labels)] covering every position `rounds` times"""
-    out = []
-    todo = []
-    for _ in range(rounds):
-        ps = list(Builder.POSITIONS)
-        rng.shuffle(ps)
-        todo += ps
-    while todo:
-        b = Builder(rng)
-        for pos in todo[:per_prog]:
-            getattr(b, "pos_" + pos)()
-        todo = todo[per_prog:]
-        out.append((b.p, dict(b.unordered), [f.name for f in b.p.exts]))
-    return out
+def build_one(seed_rng_factory, pos, rnd):
+    b = Builder(seed_rng_factory(f"{rnd}:{pos}"))
+    getattr(b, "pos_" + pos)()
+    return b
+
+
+def build_group(seed_rng_factory, group):
+    """group: list of (pos, round) -> (Program, unordered flags, labels); each test is generated from its own PRNG so a test
+    is the same whether built alone or in a bundle"""
+    b = Builder(None)
+    for pos, rnd in group:
+        b.r = seed_rng_factory(f"{rnd}:{pos}")
+        getattr(b, "pos_" + pos)()
+    return b.p, dict(b.unordered), [f.name for f in b.p.exts]
